@@ -1137,6 +1137,46 @@ class Engine:
             raise EngineError(f"method .{f.attr} on {type(recv).__name__} has no model/contract (line {e.lineno})")
         raise EngineError(f"call form not supported (line {e.lineno})")
 
+    def _unrolled_quantifier(self, path, e, op):
+        """any(elt for x in (c1, .., cn) [if cond]) / all(..) over a literal tuple / list of constants: the BoolOp of the n instances of elt (Python evaluates them in
+        this order and stops early exactly like `or` / `and`)"""
+        if len(e.args) != 1 or e.keywords or not isinstance(e.args[0], (ast.GeneratorExp, ast.ListComp)):
+            raise EngineError(f"{'any' if isinstance(op, ast.Or) else 'all'}() of something other than a generator expression (line {e.lineno})")
+        g = e.args[0]
+        if len(g.generators) != 1 or g.generators[0].is_async or not isinstance(g.generators[0].target, ast.Name):
+            raise EngineError(f"quantifier over a nested generator (line {e.lineno})")
+        it = g.generators[0].iter
+        if not (isinstance(it, (ast.Tuple, ast.List)) and all(isinstance(x, ast.Constant) for x in it.elts)):
+            raise EngineError(f"quantifier over a non-literal iterable (line {e.lineno})")
+        var = g.generators[0].target.id
+
+        class _Sub(ast.NodeTransformer):
+            def __init__(self, const):
+                self.const = const
+
+            def visit_Name(self, n):
+                return ast.copy_location(ast.Constant(self.const.value), n) if n.id == var and isinstance(n.ctx, ast.Load) else n
+        import copy as _copy
+        inst = []
+        for cst in it.elts:
+            elt = _Sub(cst).visit(_copy.deepcopy(g.elt))
+            for cond in g.generators[0].ifs:
+                cnd = _Sub(cst).visit(_copy.deepcopy(cond))
+                elt = ast.BoolOp(ast.And(), [cnd, elt]) if isinstance(op, ast.Or) else ast.BoolOp(ast.Or(), [ast.UnaryOp(ast.Not(), cnd), elt])
+            inst.append(elt)
+        if not inst:
+            return SBool(z3.BoolVal(isinstance(op, ast.And)))
+        node = inst[0] if len(inst) == 1 else ast.BoolOp(op, inst)
+        ast.copy_location(node, e)
+        ast.fix_missing_locations(node)
+        return SBool(self.truth(path, self.ev(path, node)))
+
+    def bi_any(self, path, e):
+        return self._unrolled_quantifier(path, e, ast.Or())
+
+    def bi_all(self, path, e):
+        return self._unrolled_quantifier(path, e, ast.And())
+
     def bi_len(self, path, e):
         v = self.ev(path, e.args[0])
         if isinstance(v, SSlice):
